@@ -1,4 +1,5 @@
 import Grass.Proto
+import Grass.Generated.CliTable
 /-
   C20 core — the command-line tool (crates/lib/src/main.rs).
 
@@ -18,9 +19,78 @@ import Grass.Proto
     on `Err(e)`: `eprintln!("{}", e); exit(1)`; on `Ok(css)`: `write_all` to the sink.
   * compiler/src/logger.rs:20-40 `StdLogger` writes `@warn`/`@debug` to stderr while compiling.
 
+  Round 3: the reading of the command line is TABLE-DRIVEN (`CliSpec`): names, short names, which
+  arguments take a value / may be repeated / are hidden, the possible values, case-insensitivity and
+  default of `--style`, `required_unless_present` / `conflicts_with` of the positionals, which
+  positional is INPUT/OUTPUT, and the flag → `Options` calls are all looked up in a table of the type
+  `tools/translate_cli.py` regenerates from main.rs (`Grass/Generated/CliTable.lean`).  The model runs on
+  the hand-written table `spec` (the documented command line); `C20_parse_table_driven` proves
+  `spec = generated`.  Also new: short-flag clusters (`-qscompressed`), `-I=x`, `--`, non-UTF-8
+  arguments, an effect trace of `main` (`runMain`), and the text `StdLogger` prints (`renderLog`).
+
   Strings are `String`; only `=`, `++` and emptiness are used on them.
 -/
 namespace Grass.Cli
+open Grass.CliTable (ArgSpec Action OptionCall)
+
+/-- Everything `tools/translate_cli.py` reads out of main.rs. -/
+structure CliSpec where
+  args : List ArgSpec
+  optionCalls : List OptionCall
+  positionalSwitch : String
+  readsWith : Option String × Option String
+  readsWithout : Option String × Option String
+  outputOpen : List String
+  mainSteps : List String
+  deriving DecidableEq, Repr
+
+/-- The table as regenerated from /repo's current main.rs. -/
+def generated : CliSpec :=
+  { args := Grass.CliTable.args, optionCalls := Grass.CliTable.optionCalls,
+    positionalSwitch := Grass.CliTable.positionalSwitch, readsWith := Grass.CliTable.positionalReadsWith,
+    readsWithout := Grass.CliTable.positionalReadsWithout, outputOpen := Grass.CliTable.outputOpen,
+    mainSteps := Grass.CliTable.mainSteps }
+
+/-- The command line this model was written against (main.rs:49-215 and 217-281 at c1728ad), by hand. -/
+def spec : CliSpec :=
+  { args := [
+      { id := "version", long := some "version", shorts := ['v'], action := .version },
+      { id := "STDIN", long := some "stdin", action := .setTrue },
+      { id := "INDENTED", long := some "indented", hidden := true },
+      { id := "LOAD_PATH", long := some "load-path", shorts := ['I'], action := .append },
+      { id := "STYLE", long := some "style", shorts := ['s', 't'], default := some "expanded", ignoreCase := true,
+        possible := ["expanded", "compressed"] },
+      { id := "NO_CHARSET", long := some "no-charset", action := .setTrue },
+      { id := "UPDATE", long := some "update", hidden := true },
+      { id := "NO_ERROR_CSS", long := some "no-error-css", hidden := true },
+      { id := "NO_SOURCE_MAP", long := some "no-source-map", hidden := true },
+      { id := "SOURCE_MAP_URLS", long := some "source-map-urls", hidden := true, default := some "relative", ignoreCase := true,
+        possible := ["relative", "absolute"] },
+      { id := "EMBED_SOURCES", long := some "embed-sources", hidden := true },
+      { id := "EMBED_SOURCE_MAP", long := some "embed-source-map", hidden := true },
+      { id := "WATCH", long := some "watch", hidden := true },
+      { id := "POLL", long := some "poll", hidden := true, requires := ["WATCH"] },
+      { id := "NO_STOP_ON_ERROR", long := some "no-stop-on-error", hidden := true },
+      { id := "INTERACTIVE", long := some "interactive", shorts := ['i'], hidden := true },
+      { id := "NO_COLOR", long := some "no-color", shorts := ['c'], action := .setTrue, hidden := true },
+      { id := "VERBOSE", long := some "verbose", action := .setTrue, hidden := true },
+      { id := "NO_UNICODE", long := some "no-unicode", action := .setTrue },
+      { id := "QUIET", long := some "quiet", shorts := ['q'], action := .setTrue },
+      { id := "INPUT", requiredUnless := ["STDIN"] },
+      { id := "OUTPUT", conflicts := ["STDIN"] },
+      { id := "PRECISION", long := some "precision", hidden := true }],
+    optionCalls := [
+      { method := "load_paths", reads := "LOAD_PATH", negated := false },
+      { method := "style", reads := "STYLE", negated := false },
+      { method := "quiet", reads := "QUIET", negated := false },
+      { method := "unicode_error_messages", reads := "NO_UNICODE", negated := true },
+      { method := "allows_charset", reads := "NO_CHARSET", negated := true }],
+    positionalSwitch := "STDIN",
+    readsWith := (none, some "INPUT"),
+    readsWithout := (some "INPUT", some "OUTPUT"),
+    outputOpen := ["create(true)", "write(true)", "truncate(true)", "open(path)"],
+    -- textual order of the effectful expressions of `main`; the evaluation order is `runMain` below
+    mainSteps := ["open-output", "write", "compile-path", "compile-string", "read-stdin", "report-error", "flush", "return-ok"] }
 
 inductive Style where
   | expanded | compressed
@@ -55,6 +125,30 @@ def optionsOf (negationsApplied : Bool) (f : Flags) : Options :=
     unicodeErrorMessages := if negationsApplied then !f.noUnicode else f.noUnicode
     allowsCharset := if negationsApplied then !f.noCharset else f.noCharset }
 
+/-- The value of a boolean flag by the id `main` reads it under (`matches.get_flag(id)`). -/
+def flagVal (f : Flags) (id : String) : Option Bool :=
+  if id == "STDIN" then some f.stdin else if id == "QUIET" then some f.quiet
+  else if id == "NO_UNICODE" then some f.noUnicode else if id == "NO_CHARSET" then some f.noCharset else none
+
+def readsOf (calls : List OptionCall) (method : String) : Option String :=
+  (calls.find? (fun c => c.method == method)).map (·.reads)
+
+def boolCall (calls : List OptionCall) (f : Flags) (method : String) : Option Bool :=
+  match calls.find? (fun c => c.method == method) with
+  | none => none
+  | some c => (flagVal f c.reads).map (fun b => if c.negated then !b else b)
+
+/-- main.rs:229-234 read off the table of builder calls; `none` when a call is missing or reads an
+    argument of the wrong kind. -/
+def optionsOfWith (calls : List OptionCall) (f : Flags) : Option Options :=
+  match readsOf calls "style", readsOf calls "load_paths", boolCall calls f "quiet",
+        boolCall calls f "unicode_error_messages", boolCall calls f "allows_charset" with
+  | some sid, some lid, some q, some u, some c =>
+    if sid == "STYLE" && lid == "LOAD_PATH" then
+      some { style := f.style, loadPaths := f.loadPaths, quiet := q, unicodeErrorMessages := u, allowsCharset := c }
+    else none
+  | _, _, _, _, _ => none
+
 /-! ### the command line (clap) -/
 
 structure Parsed where
@@ -71,11 +165,6 @@ inductive ParseResult where
 
 def lower (s : String) : String := String.ofList (s.toList.map Char.toLower)
 
-def styleOfValue (v : String) : Option Style :=
-  if lower v == "expanded" then some .expanded
-  else if lower v == "compressed" then some .compressed
-  else none
-
 /-- One command-line argument as clap classifies it. -/
 inductive Tok where
   | stdin | noCharset | noUnicode | quiet
@@ -88,26 +177,94 @@ inductive Tok where
   | outside                    -- hidden flags, `--`, `--help`, `--version`, other short flags: not modelled
   deriving DecidableEq, Repr, Inhabited
 
-def hiddenLongs : List String :=
-  ["--indented", "--update", "--no-error-css", "--no-source-map", "--source-map-urls", "--embed-sources",
-   "--embed-source-map", "--watch", "--poll", "--no-stop-on-error", "--interactive", "--no-color", "--verbose",
-   "--precision", "--help", "--version"]
+/-! #### table look-ups -/
 
-/-- main.rs:54-213 read as a classifier of single arguments. -/
-def tokenize (a : String) : Tok :=
-  if a == "--stdin" then .stdin
-  else if a == "--no-charset" then .noCharset
-  else if a == "--no-unicode" then .noUnicode
-  else if a == "--quiet" || a == "-q" then .quiet
-  else if a == "--style" || a == "-s" || a == "-t" then .style
-  else if a.startsWith "--style=" then .styleEq (a.drop 8).toString
-  else if a == "--load-path" || a == "-I" then .loadPath
-  else if a.startsWith "--load-path=" then .loadPathEq (a.drop 12).toString
-  else if a.startsWith "-I" then .loadPathEq (a.drop 2).toString
-  else if a.startsWith "--" then
-    if a == "--" || hiddenLongs.any (fun h => a == h || a.startsWith (h ++ "=")) then .outside else .unknownLong
-  else if a.startsWith "-" && a.length > 1 then .outside
-  else .word a
+def _root_.Grass.CliTable.ArgSpec.takesValue (s : ArgSpec) : Bool := s.action == .set || s.action == .append
+def _root_.Grass.CliTable.ArgSpec.positional (s : ArgSpec) : Bool := s.long.isNone && s.shorts.isEmpty
+
+def findId (S : CliSpec) (id : String) : Option ArgSpec := S.args.find? (fun s => s.id == id)
+def findLong (S : CliSpec) (name : String) : Option ArgSpec := S.args.find? (fun s => s.long == some name)
+def findShort (S : CliSpec) (c : Char) : Option ArgSpec := S.args.find? (fun s => s.shorts.contains c)
+
+/-- clap: only `ArgAction::Append` arguments may be given more than once. -/
+def repeatable (S : CliSpec) (id : String) : Bool :=
+  match findId S id with
+  | some s => s.action == .append
+  | none => false
+
+/-- The token for one occurrence of argument `s`, with the value attached to it (`--x=v`, `-xv`) if any.
+    Which ids mean what is main.rs:220-234 (`get_flag("QUIET")`, …); hidden arguments, `--version` and
+    any other argument `main` does not read are outside the model. -/
+def tokOfSpec (s : ArgSpec) (v : Option String) : Tok :=
+  if s.hidden || s.action == .version || s.action == .help then .outside
+  else if s.takesValue then
+    (if s.id == "STYLE" then (match v with | none => .style | some v => .styleEq v)
+     else if s.id == "LOAD_PATH" then (match v with | none => .loadPath | some v => .loadPathEq v)
+     else .outside)
+  else match v with
+    | some _ => .unknownLong            -- clap: "unexpected value for '--flag'": usage error
+    | none =>
+      if s.id == "STDIN" then .stdin else if s.id == "NO_CHARSET" then .noCharset
+      else if s.id == "NO_UNICODE" then .noUnicode else if s.id == "QUIET" then .quiet else .outside
+
+/-- clap strips one `=` between a short option and its attached value (`-I=x` is the value `x`). -/
+def stripEq : List Char → List Char
+  | '=' :: rest => rest
+  | cs => cs
+
+/-- `-abc`: a cluster of short flags; the first one that takes a value swallows the rest as its value. -/
+def shortToks (S : CliSpec) : List Char → List Tok
+  | [] => []
+  | c :: rest =>
+    if c == 'h' then [.outside] else        -- clap's built-in `-h`
+    match findShort S c with
+    | none => [.unknownLong]
+    | some s =>
+      if s.takesValue then
+        (if rest.isEmpty then [tokOfSpec s none] else [tokOfSpec s (some (String.ofList (stripEq rest)))])
+      else tokOfSpec s none :: shortToks S rest
+
+/-- `--name` / `--name=value`. -/
+def longTok (S : CliSpec) (body : List Char) : Tok :=
+  let name := String.ofList (body.takeWhile (· != '='))
+  let rest := body.dropWhile (· != '=')
+  let v : Option String := match rest with | [] => none | _ :: val => some (String.ofList val)
+  if name == "help" then .outside else      -- clap's built-in `--help`
+  match findLong S name with
+  | none => .unknownLong
+  | some s => tokOfSpec s v
+
+/-- main.rs:54-213 read as a classifier of single arguments (other than `--`). -/
+def tokenizeWith (S : CliSpec) (a : String) : List Tok :=
+  match a.toList with
+  | '-' :: '-' :: body => [longTok S body]
+  | '-' :: c :: rest => shortToks S (c :: rest)
+  | _ => [.word a]                          -- includes the lone `-` and the empty string
+
+def tokenize (a : String) : List Tok := tokenizeWith spec a
+
+def looksLikeFlag (a : String) : Bool :=
+  match a.toList with
+  | '-' :: _ :: _ => true
+  | _ => false
+
+def expectsValue : Option Tok → Bool
+  | some .style => true
+  | some .loadPath => true
+  | _ => false
+
+/-- The whole command line.  `pending`: the previous argument was an option still waiting for its
+    value — the next argument is that value unless it looks like a flag (clap: "a value is required").
+    After `--` everything is a positional. -/
+def tokenizeAllWith (S : CliSpec) : List String → Bool → List Tok
+  | [], _ => []
+  | a :: rest, true =>
+    if looksLikeFlag a then [.unknownLong] else .word a :: tokenizeAllWith S rest false
+  | a :: rest, false =>
+    if a == "--" then rest.map .word
+    else
+      let ts := tokenizeWith S a
+      ts ++ tokenizeAllWith S rest (expectsValue ts.getLast?)
 
 structure PState where
   flags : Flags := {}
@@ -115,9 +272,29 @@ structure PState where
   positionals : List String := []
   deriving DecidableEq, Repr, Inhabited
 
-def setStyle (st : PState) (v : String) : Except ParseResult PState :=
-  if st.styleSeen then .error (.usage "style given twice") else
-  match styleOfValue v with
+/-- `value_parser!(Style)` + `ignore_case(true)` (main.rs:17-27, 83-93) and main.rs:224-227. -/
+def styleOfValueWith (S : CliSpec) (v : String) : Option Style :=
+  match findId S "STYLE" with
+  | none => none
+  | some s =>
+    match s.possible.find? (fun pv => if s.ignoreCase then lower pv == lower v else pv == v) with
+    | none => none
+    | some pv => if pv == "expanded" then some .expanded else if pv == "compressed" then some .compressed else none
+
+def styleOfValue (v : String) : Option Style := styleOfValueWith spec v
+
+/-- The state before any argument is read: `--style` has its `default_value`. -/
+def initStateWith (S : CliSpec) : Option PState :=
+  match findId S "STYLE" with
+  | none => none
+  | some s =>
+    match s.default with
+    | none => none            -- main.rs:224 `.unwrap()` would panic
+    | some d => (styleOfValueWith S d).map (fun st => { flags := { style := st } })
+
+def setStyle (S : CliSpec) (st : PState) (v : String) : Except ParseResult PState :=
+  if st.styleSeen && !repeatable S "STYLE" then .error (.usage "style given twice") else
+  match styleOfValueWith S v with
   | some s => .ok { st with flags := { st.flags with style := s }, styleSeen := true }
   | none => .error (.usage "invalid style value")
 
@@ -126,35 +303,41 @@ def addLoadPath (st : PState) (v : String) : PState :=
 
 /-- One pass over the arguments (after the program name).  An option that takes a value consumes
     the next argument, which must be a `word` (clap rejects values that look like flags). -/
-def parseLoop : List Tok → PState → Except ParseResult PState
+def parseLoop (S : CliSpec) : List Tok → PState → Except ParseResult PState
   | [], st => .ok st
   | .stdin :: rest, st =>
-    if st.flags.stdin then .error (.usage "flag given twice")
-    else parseLoop rest { st with flags := { st.flags with stdin := true } }
+    if st.flags.stdin && !repeatable S "STDIN" then .error (.usage "flag given twice")
+    else parseLoop S rest { st with flags := { st.flags with stdin := true } }
   | .noCharset :: rest, st =>
-    if st.flags.noCharset then .error (.usage "flag given twice")
-    else parseLoop rest { st with flags := { st.flags with noCharset := true } }
+    if st.flags.noCharset && !repeatable S "NO_CHARSET" then .error (.usage "flag given twice")
+    else parseLoop S rest { st with flags := { st.flags with noCharset := true } }
   | .noUnicode :: rest, st =>
-    if st.flags.noUnicode then .error (.usage "flag given twice")
-    else parseLoop rest { st with flags := { st.flags with noUnicode := true } }
+    if st.flags.noUnicode && !repeatable S "NO_UNICODE" then .error (.usage "flag given twice")
+    else parseLoop S rest { st with flags := { st.flags with noUnicode := true } }
   | .quiet :: rest, st =>
-    if st.flags.quiet then .error (.usage "flag given twice")
-    else parseLoop rest { st with flags := { st.flags with quiet := true } }
+    if st.flags.quiet && !repeatable S "QUIET" then .error (.usage "flag given twice")
+    else parseLoop S rest { st with flags := { st.flags with quiet := true } }
   | .style :: .word v :: rest, st =>
-    match setStyle st v with
-    | .ok st' => parseLoop rest st'
+    match setStyle S st v with
+    | .ok st' => parseLoop S rest st'
     | .error e => .error e
   | .style :: [], _ => .error (.usage "missing value")
-  | .style :: _ :: _, _ => .error .unsupported
+  | .style :: .outside :: _, _ => .error .unsupported
+  | .style :: _ :: _, _ => .error (.usage "missing value")
   | .styleEq v :: rest, st =>
-    match setStyle st v with
-    | .ok st' => parseLoop rest st'
+    match setStyle S st v with
+    | .ok st' => parseLoop S rest st'
     | .error e => .error e
-  | .loadPath :: .word v :: rest, st => parseLoop rest (addLoadPath st v)
+  | .loadPath :: .word v :: rest, st =>
+    if !st.flags.loadPaths.isEmpty && !repeatable S "LOAD_PATH" then .error (.usage "flag given twice")
+    else parseLoop S rest (addLoadPath st v)
   | .loadPath :: [], _ => .error (.usage "missing value")
-  | .loadPath :: _ :: _, _ => .error .unsupported
-  | .loadPathEq v :: rest, st => parseLoop rest (addLoadPath st v)
-  | .word s :: rest, st => parseLoop rest { st with positionals := st.positionals ++ [s] }
+  | .loadPath :: .outside :: _, _ => .error .unsupported
+  | .loadPath :: _ :: _, _ => .error (.usage "missing value")
+  | .loadPathEq v :: rest, st =>
+    if !st.flags.loadPaths.isEmpty && !repeatable S "LOAD_PATH" then .error (.usage "flag given twice")
+    else parseLoop S rest (addLoadPath st v)
+  | .word s :: rest, st => parseLoop S rest { st with positionals := st.positionals ++ [s] }
   | .unknownLong :: _, _ => .error (.usage "unexpected argument")
   | .outside :: _, _ => .error .unsupported
 
@@ -178,12 +361,49 @@ def assignSpecStdin (f : Flags) : List String → ParseResult
 def assign (asFound : Bool) (f : Flags) (ps : List String) : ParseResult :=
   if asFound || !f.stdin then assignAsFound f ps else assignSpecStdin f ps
 
-def parseToks (asFound : Bool) (toks : List Tok) : ParseResult :=
-  match parseLoop toks {} with
-  | .error e => e
-  | .ok st => assign asFound st.flags st.positionals
+/-- Is the argument `id` present on the command line (for `required_unless_present` / `conflicts_with`). -/
+def presentOf (f : Flags) (id : String) : Bool :=
+  if id == "STDIN" then f.stdin else if id == "QUIET" then f.quiet else if id == "NO_UNICODE" then f.noUnicode
+  else if id == "NO_CHARSET" then f.noCharset else if id == "LOAD_PATH" then !f.loadPaths.isEmpty else false
 
-def parseArgv (asFound : Bool) (argv : List String) : ParseResult := parseToks asFound (argv.map tokenize)
+def lookupBound (bound : List (String × String)) (id : String) : Option String :=
+  (bound.find? (fun b => b.1 == id)).map (·.2)
+
+/-- The same, read off the table: positionals are bound to the positional arguments in table order;
+    `required_unless_present`, `conflicts_with`; then main.rs:237-244 picks (input, output). -/
+def assignWith (S : CliSpec) (f : Flags) (ps : List String) : ParseResult :=
+  let specs := S.args.filter ArgSpec.positional
+  if ps.length > specs.length then .usage "unexpected argument" else
+  let bound : List (String × String) := (specs.zip ps).map (fun b => (b.1.id, b.2))
+  if specs.any (fun s => !s.requiredUnless.isEmpty && (lookupBound bound s.id).isNone && !s.requiredUnless.any (presentOf f)) then
+    .usage "INPUT required"
+  else if specs.any (fun s => (lookupBound bound s.id).isSome && s.conflicts.any (presentOf f)) then
+    .usage "unexpected argument"
+  else
+    let reads := if presentOf f S.positionalSwitch then S.readsWith else S.readsWithout
+    .ok ⟨f, reads.1.bind (lookupBound bound), reads.2.bind (lookupBound bound)⟩
+
+def parseToksWith (S : CliSpec) (asFound : Bool) (toks : List Tok) : ParseResult :=
+  match initStateWith S with
+  | none => .unsupported
+  | some st0 =>
+    match parseLoop S toks st0 with
+    | .error e => e
+    | .ok st => if asFound then assign true st.flags st.positionals else assignWith S st.flags st.positionals
+
+def parseToks (asFound : Bool) (toks : List Tok) : ParseResult := parseToksWith spec asFound toks
+
+def parseArgvWith (S : CliSpec) (asFound : Bool) (argv : List String) : ParseResult :=
+  parseToksWith S asFound (tokenizeAllWith S argv false)
+
+def parseArgv (asFound : Bool) (argv : List String) : ParseResult := parseArgvWith spec asFound argv
+
+/-- `none` = an argument that is not valid UTF-8: every argument of `cli()` has a `String` value parser,
+    clap answers "invalid UTF-8 was detected in one or more arguments" (usage error). -/
+def parseArgvRaw (asFound : Bool) (argv : List (Option String)) : ParseResult :=
+  match argv.mapM id with
+  | none => .usage "invalid UTF-8"
+  | some argv => parseArgv asFound argv
 
 /-- The canonical command line the check uses for a set of flags. -/
 def renderToks (f : Flags) (positionals : List String) : List Tok :=
@@ -230,6 +450,7 @@ def LibResult.warnings : LibResult → String
 inductive Seg where
   | text (s : String)
   | osError
+  | clapError        -- clap's usage error message (`error: …`), text not modelled
   deriving DecidableEq, Repr, Inhabited
 
 structure Outcome where
@@ -267,7 +488,7 @@ def outcomeStdinUnreadable (o : OutputKind) : Outcome :=
 
 /-- Text segments of stderr joined (an `osError` segment contributes nothing here). -/
 def stderrText (o : Outcome) : String :=
-  o.stderr.foldl (fun acc s => match s with | .text t => acc ++ t | .osError => acc) ""
+  o.stderr.foldl (fun acc s => match s with | .text t => acc ++ t | _ => acc) ""
 
 /-- P̂: the observed run equals the model's outcome for the library result under `optionsOf flags`. -/
 structure Observed where
@@ -317,6 +538,142 @@ def outcomeIO (flushChecked : Bool) (f : Flags) (i : InputKind) (o : OutputKind)
       { exitZero := true, stdout := "", stderr := [.text w], file := none }
     else { exitZero := false, stdout := "", stderr := [.text w, .osError], file := none }
 
+/-! ### what `StdLogger` prints (crates/compiler/src/logger.rs:19-40) -/
+
+inductive LogKind where
+  | debug | warn
+  deriving DecidableEq, Repr, Inhabited
+
+/-- One call of the `Logger` trait: the `SpanLoc` (file name, 0-based line and column of its
+    beginning) and the message. -/
+structure LogEvent where
+  kind : LogKind
+  file : String
+  line : Nat
+  column : Nat
+  msg : String
+  deriving DecidableEq, Repr, Inhabited
+
+/-- logger.rs:21-27 `eprintln!("{}:{} DEBUG: {}", file, line + 1, message)`;
+    logger.rs:31-38 `eprintln!("Warning: {}\n    ./{}:{}:{}", message, file, line + 1, column + 1)`. -/
+def renderEvent (e : LogEvent) : String :=
+  match e.kind with
+  | .debug => e.file ++ ":" ++ toString (e.line + 1) ++ " DEBUG: " ++ e.msg ++ "\n"
+  | .warn => "Warning: " ++ e.msg ++ "\n    ./" ++ e.file ++ ":" ++ toString (e.line + 1) ++ ":" ++ toString (e.column + 1) ++ "\n"
+
+def renderLog : List LogEvent → String
+  | [] => ""
+  | e :: rest => renderEvent e ++ renderLog rest
+
+/-- The library result when the Logger calls are known: what reaches stderr is their rendering. -/
+def libOk (css : String) (evs : List LogEvent) : LibResult := .ok css (renderLog evs)
+def libErr (rendered : String) (evs : List LogEvent) : LibResult := .err rendered (renderLog evs)
+
+/-! ### `main` as a sequence of effects (main.rs:217-281)
+
+  Evaluation order of main.rs:246-281: the output file is opened first (`OpenOptions … .open(path)?`,
+  creating/truncating it); then the ARGUMENT of `write_all` is evaluated — stdin is read
+  (`read_to_string(..)?`) and the library is called (which logs through `StdLogger` as it goes); on `Err`
+  the closure prints the error and exits 1; only then `write_all`, `flush`, `Ok(())`.
+
+  `openFirst = true` is the code as it stands.  `openFirst = false` is the SPECIFIED order (compile, then
+  open the output): it differs exactly when the run fails after the open (the output file is left
+  empty) and when OUTPUT names the INPUT file (the input is truncated before it is read: known finding
+  C20-output-is-input). -/
+
+inductive Step where
+  | clapUsage            -- clap prints the usage error and exits 2
+  | openOutput (ok : Bool)
+  | readStdin (ok : Bool)
+  | compile (inputTruncated : Bool)
+  | logged (text : String)
+  | reportError          -- `eprintln!("{}", e)`
+  | write (ok : Bool)
+  | flush (ok : Bool)
+  | returnErr            -- `main` returns `Err(io)`: Rust prints `Error: {:?}` and exits 1
+  | exit (code : Nat)
+  deriving DecidableEq, Repr, Inhabited
+
+/-- The world `main` runs in. -/
+structure Env where
+  output : OutputKind := .stdout          -- no OUTPUT / OUTPUT opens / OUTPUT cannot be opened
+  outputIsInput : Bool := false           -- OUTPUT and INPUT name the same file
+  stdinUtf8 : Bool := true
+  /-- the library's result; the argument says whether the input file was truncated before it was read -/
+  libOf : Bool → LibResult
+  sinkFails : Bool := false               -- every write to the sink fails (full device)
+
+structure Run where
+  steps    : List Step
+  exitCode : Nat
+  stdout   : String
+  stderr   : List Seg
+  /-- content of the output file after the run; `none` = not touched/created by the tool -/
+  file     : Option String
+  /-- the INPUT file was emptied by the tool -/
+  inputDestroyed : Bool
+  deriving DecidableEq, Repr, Inhabited
+
+/-- Does a `write_all`+`flush` of `css` to a failing sink report the failure?  (`Stdout` is a
+    `LineWriter`; with the explicit flush of main.rs:280 every non-empty write is reported.) -/
+def writeSteps (sinkFails : Bool) (css : String) : List Step × Bool :=
+  if !sinkFails || css == "" then ([.write true, .flush true], true)
+  else ([.write false], false)        -- either `write_all(..)?` or `flush()?` returns the error; one step
+
+def runMain (openFirst : Bool) (i : InputKind) (e : Env) : Run :=
+  let hasFile := e.output != .stdout
+  let truncated := openFirst && e.output == .file && e.outputIsInput && i == .file
+  -- 1. (as it stands) open the output
+  if openFirst && e.output == .fileUnopenable then
+    { steps := [.openOutput false, .returnErr, .exit 1], exitCode := 1, stdout := "", stderr := [.osError], file := none, inputDestroyed := false }
+  else
+  let pre : List Step := if openFirst && hasFile then [.openOutput true] else []
+  let fileOnFail : Option String := if openFirst && hasFile then some "" else none
+  -- 2. read stdin
+  if i == .stdin && !e.stdinUtf8 then
+    { steps := pre ++ [.readStdin false, .returnErr, .exit 1], exitCode := 1, stdout := "", stderr := [.osError], file := fileOnFail,
+      inputDestroyed := false }
+  else
+  let pre := pre ++ (if i == .stdin then [.readStdin true] else [])
+  -- 3. compile
+  match e.libOf truncated with
+  | .err r w =>
+    { steps := pre ++ [.compile truncated, .logged w, .reportError, .exit 1], exitCode := 1, stdout := "",
+      stderr := [.text w, .text (r ++ "\n")], file := fileOnFail, inputDestroyed := truncated }
+  | .ok css w =>
+    let pre := pre ++ [.compile truncated, .logged w]
+    -- (specified order) open the output now
+    if !openFirst && e.output == .fileUnopenable then
+      { steps := pre ++ [.openOutput false, .returnErr, .exit 1], exitCode := 1, stdout := "", stderr := [.text w, .osError], file := none,
+        inputDestroyed := false }
+    else
+    let pre := pre ++ (if !openFirst && hasFile then [.openOutput true] else [])
+    let (ws, ok) := writeSteps e.sinkFails css
+    if ok then
+      { steps := pre ++ ws ++ [.exit 0], exitCode := 0, stdout := if hasFile then "" else (if e.sinkFails then "" else css), stderr := [.text w],
+        file := if hasFile then (if e.sinkFails then none else some css) else none, inputDestroyed := truncated }
+    else
+      { steps := pre ++ ws ++ [.returnErr, .exit 1], exitCode := 1, stdout := "", stderr := [.text w, .osError], file := none,
+        inputDestroyed := truncated }
+
+/-- The whole tool: clap, then `main`. -/
+def runCli (openFirst : Bool) (argv : List (Option String)) (e : Env) : Option Run :=
+  match parseArgvRaw false argv with
+  | .unsupported => none
+  | .usage _ => some { steps := [.clapUsage, .exit 2], exitCode := 2, stdout := "", stderr := [.clapError], file := none, inputDestroyed := false }
+  | .ok p => some (runMain openFirst (inputKind p) e)
+
+def runStderrText (r : Run) : String :=
+  r.stderr.foldl (fun acc s => match s with | .text t => acc ++ t | _ => acc) ""
+
+/-- P̂ (extended): exact exit code, stdout, output file; stderr exactly, except that an operating-system
+    error is `Error: …` at the end and a clap usage error is `error: …` (text not modelled). -/
+def agreesRun (r : Run) (obs : Observed) : Bool :=
+  r.exitCode == obs.exitCode && r.stdout == obs.stdout && r.file == obs.file &&
+  (if r.stderr.contains .clapError then obs.stderr.startsWith "error: "
+   else if r.stderr.contains .osError then obs.stderr.startsWith (runStderrText r ++ "Error: ")
+   else runStderrText r == obs.stderr)
+
 /-! ### driver entry points -/
 open Grass.Proto
 
@@ -344,6 +701,7 @@ def outputKindOfStr (s : String) : Option OutputKind :=
 def segStr : Seg → String
   | .text t => "t:" ++ hexEncode t
   | .osError => "os"
+  | .clapError => "clap"
 
 def handleOutcome (ok kind body warn fc sf : String) : String :=
   match outputKindOfStr ok, hexDecode body, hexDecode warn, parseBool? fc, parseBool? sf with
@@ -363,13 +721,74 @@ def handleAgrees (ok kind body warn code so se fl fc sf : String) : String :=
     "ok " ++ boolStr (agrees exp ⟨code, so, se, fl⟩)
   | _, _, _, _, _, _, _, _, _ => "bad-op"
 
+/-- `!` stands for an argument that is not valid UTF-8. -/
+def argvRawOfTok (s : String) : Option (List (Option String)) :=
+  if s == "-" then some [] else
+  (s.splitOn ",").mapM (fun t => if t == "!" then some none else (hexDecode t).map some)
+
+def eventOfStr (s : String) : Option LogEvent :=
+  match s.splitOn ":" with
+  | [k, f, l, c, m] =>
+    match (if k == "d" then some LogKind.debug else if k == "w" then some LogKind.warn else none),
+          hexDecode f, l.toNat?, c.toNat?, hexDecode m with
+    | some k, some f, some l, some c, some m => some ⟨k, f, l, c, m⟩
+    | _, _, _, _, _ => none
+  | _ => none
+
+def eventsOfTok (s : String) : Option (List LogEvent) :=
+  if s == "-" then some [] else (s.splitOn ",").mapM eventOfStr
+
+def stepStr : Step → String
+  | .clapUsage => "clap-usage" | .openOutput ok => "open-output:" ++ boolStr ok | .readStdin ok => "read-stdin:" ++ boolStr ok
+  | .compile t => "compile:" ++ boolStr t | .logged _ => "logged" | .reportError => "report-error"
+  | .write ok => "write:" ++ boolStr ok | .flush ok => "flush:" ++ boolStr ok | .returnErr => "return-err" | .exit c => "exit:" ++ toString c
+
+def envOf (out isIn su sf kind body evs : String) : Option Env :=
+  match outputKindOfStr out, parseBool? isIn, parseBool? su, parseBool? sf, hexDecode body, eventsOfTok evs with
+  | some out, some isIn, some su, some sf, some body, some evs =>
+    if kind == "ok" then some { output := out, outputIsInput := isIn, stdinUtf8 := su, sinkFails := sf, libOf := fun _ => libOk body evs }
+    else if kind == "err" then some { output := out, outputIsInput := isIn, stdinUtf8 := su, sinkFails := sf, libOf := fun _ => libErr body evs }
+    else none
+  | _, _, _, _, _, _ => none
+
+def runStr (r : Run) : String :=
+  s!"ok exit={r.exitCode} stdout={hexEncode r.stdout} stderr={",".intercalate (r.stderr.map segStr)} file={optStr r.file} " ++
+  s!"input_destroyed={boolStr r.inputDestroyed} steps={",".intercalate (r.steps.map stepStr)}"
+
 def handle : List String → String
+  -- runcli <argv(raw)> <openFirst> <stdout|file|unopenable> <outputIsInput> <stdinUtf8> <sinkFails> <ok|err> <css-or-rendered> <events>:
+  -- the whole tool (clap + main) as a run: exit code, stdout, stderr segments, output file, steps
+  | ["runcli", argv, ofi, out, isIn, su, sf, kind, body, evs] =>
+    match argvRawOfTok argv, parseBool? ofi, envOf out isIn su sf kind body evs with
+    | some argv, some ofi, some e =>
+      match runCli ofi argv e with
+      | none => "unsupported"
+      | some r => runStr r
+    | _, _, _ => "bad-op"
+  -- agreescli <…the same…> <exit code> <stdout> <stderr> <file>: P̂ (extended) on an observed run of the binary
+  | ["agreescli", argv, ofi, out, isIn, su, sf, kind, body, evs, code, so, se, fl] =>
+    match argvRawOfTok argv, parseBool? ofi, envOf out isIn su sf kind body evs, code.toNat?, hexDecode so, hexDecode se, optOfStr fl with
+    | some argv, some ofi, some e, some code, some so, some se, some fl =>
+      match runCli ofi argv e with
+      | none => "unsupported"
+      | some r => "ok " ++ boolStr (agreesRun r ⟨code, so, se, fl⟩)
+    | _, _, _, _, _, _, _ => "bad-op"
+  -- renderlog <events>: what StdLogger prints for these Logger calls
+  | ["renderlog", evs] =>
+    match eventsOfTok evs with
+    | some evs => "ok " ++ hexEncode (renderLog evs)
+    | none => "bad-op"
+  -- table: the table the model runs on, and whether it equals the one regenerated from main.rs
+  | ["table"] =>
+    "ok same=" ++ boolStr (decide (spec = generated)) ++ " args=" ++
+      ",".intercalate (spec.args.map (fun a => a.id ++ ":" ++ (a.long.getD "") ++ ":" ++ String.ofList a.shorts ++ ":" ++
+        boolStr a.takesValue ++ ":" ++ boolStr a.hidden ++ ":" ++ boolStr (repeatable spec a.id)))
   -- parse <argv>: flags, the Options derived from them, input and output positionals
   | ["parse", argv] =>
-    match argvOfTok argv with
+    match argvRawOfTok argv with
     | none => "bad-op"
     | some argv =>
-      match parseArgv false argv with
+      match parseArgvRaw false argv with
       | .unsupported => "unsupported"
       | .usage why => "usage " ++ hexEncode why
       | .ok p =>
